@@ -3,7 +3,7 @@
 # worktree of /repo's HEAD and runs the quick check of its property against it.
 # Prints one line per change: CAUGHT / MISSED / NOAPPLY.
 cd /verif
-names=("$@"); [ ${#names[@]} -eq 0 ] && names=($(ls seeded | grep -v README))
+names=("$@"); [ ${#names[@]} -eq 0 ] && names=($(ls -d seeded/*/ | xargs -n1 basename))
 for n in "${names[@]}"; do
   d=seeded/$n; prop=$(python3 -c "import json;m=json.load(open('$d/meta.json'));print(m.get('check',m['property']))")
   wt=/tmp/seedreg_$n
